@@ -302,8 +302,18 @@ def text_array_fold_rule(repo: Repo, rep: Report, rid: str) -> None:
         rep.ok(rid, f"{fi.key}:fold", "not foldable with the evaluator's whitelist", fi.loc(), nontrivial=False)
         return
     bad = fold["bad"]
-    rep.check(not bad, rid, f"{fi.key}:fold", f"{fold['cases']} (array kind, value) cases agree with the reference",
-              (f"{bad[0][0]}._write ({bad[0][1]}, {bad[0][2]} array) given {bad[0][3]!r}: {bad[0][4]}, the encoding of the value is {bad[0][5]}") if bad else "", fi.loc())
+    fams = {}
+    for b in bad:
+        fams.setdefault(str(b[0]).split(".")[0], b)
+    for fam in ("CharArray", "WcharArray"):
+        f2 = repo.lookup_method(fam, "_write") or fi
+        b = fams.get(fam)
+        rep.check(b is None, rid, f"{f2.key}:fold", f"{fold['cases']} (array kind, value) cases agree with the reference",
+                  (f"{b[0]}._write ({b[1]}, {b[2]} array) given {b[3]!r}: {b[4]}, the encoding of the value is {b[5]}") if b else "", f2.loc())
+    other = [b for k_, b in fams.items() if k_ not in ("CharArray", "WcharArray")]
+    if other:
+        b = other[0]
+        rep.fail(rid, f"{fi.key}:fold:{b[0]}", f"{b[0]} ({b[1]}, {b[2]} array) given {b[3]!r}: {b[4]}, the encoding of the value is {b[5]}", fi.loc())
 
 
 def run(repo: Repo, rep: Report, tier: str) -> None:
